@@ -333,7 +333,7 @@ macro_rules! tuples {
 }
 
 macro_rules! for_ks {
-    ([$($k:literal),*], $K:ident => $body:block) => { $( { const $K: usize = $k; $body } )* };
+    ([$($k:literal),*], $K:ident => $body:block) => { $( { const $K: usize = $k; if $k <= crate::maxn() { $body } } )* };
 }
 macro_rules! for_es {
     ([$($e:ty),*], $E:ident => $body:block) => { $( { type $E = $e; $body } )* };
@@ -362,8 +362,19 @@ fn run_c02(ctx: &mut Ctx) {
     tuples!(ctx, Tr<5>);
 }
 
+static MAXN: std::sync::atomic::AtomicUsize = std::sync::atomic::AtomicUsize::new(usize::MAX);
+/// reduced-bound runs (Miri substrate): lengths above --maxn are skipped
+pub fn maxn() -> usize {
+    MAXN.load(std::sync::atomic::Ordering::Relaxed)
+}
+
 fn main() {
     let mut ctx = Ctx::from_args();
+    if ctx.only.is_none() {
+        if let Some(m) = ctx.extra.get("maxn").and_then(|s| s.parse::<usize>().ok()) {
+            MAXN.store(m, std::sync::atomic::Ordering::Relaxed);
+        }
+    }
     match ctx.mode.as_str() {
         "C02" => run_c02(&mut ctx),
         "C10" => c10::run(&mut ctx),
